@@ -64,7 +64,15 @@ impl Mutator<'_> {
                 if want(self.focus, rate, rng, "bare value in a union position") {
                     // the encoder has union handling for bare Null and Record values (they are written with the branch
                     // index); every other kind is the recorded finding
+                    // (with several record branches the encoder's trial encoding can pick a wrong one - a recorded
+                    // finding; with exactly one record branch a bare record is written correctly)
+                    let record_branches = u.variants().iter().filter(|b| match b {
+                        Schema::Record(_) => true,
+                        Schema::Ref { name } => matches!(self.names.get(&name.fully_qualified_name(ns).into_owned()), Some(Schema::Record(_))),
+                        _ => false,
+                    }).count();
                     self.note(match &m {
+                        Value::Record(_) if record_branches > 1 => "bare record in a union with several record branches",
                         Value::Record(_) => "bare record in a union position",
                         Value::Null => "bare null in a union position",
                         _ => "bare value in a union position",
@@ -332,6 +340,9 @@ pub fn run(args: &[String]) -> i32 {
         }
         let names_s = wire::names_str(names);
         let schema_s = wire::schema_str(&schema);
+        // ONE single-object writer for all the rounds of a schema: a write that fails (the recorded findings make some
+        // accepted values fail in the encoder) must leave it fit for the next value
+        let mut so = GenericSingleObjectWriter::new_with_capacity(&schema, 32).unwrap();
         let rounds = if from_catalogue { 2 + 3 * FORMS.len() } else { 4 };
         for round in 0..rounds {
             // catalogue: canonical, every form at once, then each form alone; generated schemas: increasing rates
@@ -385,7 +396,6 @@ pub fn run(args: &[String]) -> i32 {
             let before = sink.0.borrow().len();
             let r_cont = catch(|| cw.append_value_ref(&v).and_then(|_| cw.flush()));
             let cont_delta = sink.0.borrow().len() - before;
-            let mut so = GenericSingleObjectWriter::new_with_capacity(&schema, 32).unwrap();
             let mut so_sink = Vec::new();
             let r_so = catch(|| so.write_value_ref(&v, &mut so_sink));
             drop(cw);
